@@ -68,6 +68,10 @@ func (bs *blockState) call(x *ssa.Call) {
 		bs.builtin(x, f)
 		return
 	case *ssa.Function:
+		if f.Pkg != nil && f.Pkg.Pkg.Path() == "sync/atomic" {
+			bs.atomicCall(x, f)
+			return
+		}
 		var args []Val
 		for _, a := range c.Args {
 			args = append(args, bs.val(a))
@@ -190,6 +194,7 @@ func (bs *blockState) applyContractX(spec *FuncSpec, key string, args []Val, ins
 		bs.assertG(site+".pre."+clauseName(r, i), "pre", pre.boolT(r.Expr), r.Src, ins)
 	}
 	preSt := pre.St
+	e.items = append(e.items, Item{Kind: IAssert, Guard: bs.g, Term: "false", Name: fmt.Sprintf("%s#canary.before.%s", e.key, site), Canary: true, Class: "canary-before"})
 	bs.ghostAt("call "+short+fmt.Sprintf("#%d", e.callOrd[short])+" before", ins, preVars)
 	// havoc what the callee may modify
 	bs.havocModifies(spec, vars, ins)
@@ -556,4 +561,29 @@ func (bs *blockState) appendBuiltin(x *ssa.Call) {
 	// appending zero elements to a nil slice yields nil
 	isNilRes := and(eq(s.C[0], "0"), eq(n, "0"))
 	bs.setReg(x, Val{x.Type(), []string{ite(isNilRes, "0", ref), ite(isNilRes, "0", off), newLen, ite(isNilRes, "0", cp)}})
+}
+
+// atomicCall: sync/atomic operations on shared words (DESIGN 3.6). A loaded value is only valid
+// at that instant: other threads may change the word at any time, so every load yields an
+// arbitrary value of the type; stores and CAS have no effect the sequential proof may rely on.
+func (bs *blockState) atomicCall(x *ssa.Call, f *ssa.Function) {
+	e := bs.e
+	name := f.Name()
+	switch {
+	case strings.HasPrefix(name, "Load"):
+		v := e.freshVal("atomic."+x.Name(), x.Type())
+		e.assume(bs.g, e.typeFacts(v))
+		e.regs[x] = v
+	case strings.HasPrefix(name, "Store"):
+		// nothing to record
+	case strings.HasPrefix(name, "CompareAndSwap"):
+		v := e.freshVal("cas."+x.Name(), x.Type())
+		e.regs[x] = v
+	case strings.HasPrefix(name, "Add"), strings.HasPrefix(name, "Swap"):
+		v := e.freshVal("atomic."+x.Name(), x.Type())
+		e.assume(bs.g, e.typeFacts(v))
+		e.regs[x] = v
+	default:
+		unsupp("sync/atomic.%s", name)
+	}
 }
